@@ -164,8 +164,11 @@ class RTDCWriter:
         # set event count
         feats = sorted(self.h5file.get("events", {}).keys())
         if feats:
-            self.h5file.attrs["experiment:event count"] = len(
-                self.h5file["events"][feats[0]])
+            feat0 = self.h5file["events"][feats[0]]
+            if feats[0] == "trace" and len(feat0):
+                # "trace" is a group containing the individual traces
+                feat0 = feat0[sorted(feat0.keys())[0]]
+            self.h5file.attrs["experiment:event count"] = len(feat0)
         else:
             raise ValueError(f"No features in '{self.path}'!")
 
